@@ -341,13 +341,14 @@ var c09Public = hx.NewPart("C09", "public", genC09, evalC09)
 // ---- internal entry point: every implemented window width
 
 type c09InnerCase struct {
-	C       int    `json:"c"`
-	Split   bool   `json:"split"`
-	N       int    `json:"n"`
-	Mont    bool   `json:"mont"`
-	NbTasks int    `json:"nbtasks"`
-	Mode    string `json:"scalars"`
-	Seed    uint64 `json:"seed"`
+	C       int      `json:"c"`
+	Split   bool     `json:"split"`
+	N       int      `json:"n"`
+	Mont    bool     `json:"mont"`
+	NbTasks int      `json:"nbtasks"`
+	Mode    string   `json:"scalars"`
+	Seed    uint64   `json:"seed"`
+	Raw     []string `json:"raw,omitempty"` // explicit scalar values (hex); overrides Mode/N (native fuzz target)
 }
 
 func genC09Inner(t *rapid.T) c09InnerCase {
@@ -370,11 +371,18 @@ func evalC09Inner(c c09InnerCase, rec *hx.Rec) error {
 	if c.C > 16 {
 		gen.W = 16
 	}
+	if len(c.Raw) > 0 {
+		c.N = len(c.Raw)
+		gen.N = c.N
+	}
 	sum := new(big.Int)
 	scal := make([]fr.Element, c.N)
 	affs := make([]bandersnatch.PointAffine, c.N)
 	for j := 0; j < c.N; j++ {
 		s := gen.msmScalar(j)
+		if len(c.Raw) > 0 {
+			s = new(big.Int).Mod(hx.BigHex(c.Raw[j]), ref.R)
+		}
 		scal[j] = frScalar(s, c.Mont)
 		idx := gen.pointIndex(j)
 		affs[j] = msmAff[idx]
@@ -429,19 +437,18 @@ func TestC09(t *testing.T) {
 			}
 		}
 	}
-	// the two huge window widths: once each per quick run (shards 0 and 1), a handful in thorough
-	big := []int{}
-	if sh == 0 {
-		big = append(big, 20)
+	// the huge window widths (50-200 MB of buckets per chunk): (20,21) x (split, no split) in quick, plus 22 in thorough
+	bigCombos := []struct {
+		c     int
+		split bool
+	}{{20, false}, {21, true}, {20, true}, {21, false}, {22, false}, {22, true}}
+	nBig := 4
+	if hx.Thorough() {
+		nBig = 6
 	}
-	if sh == 1 {
-		big = append(big, 21)
-	}
-	if hx.Thorough() && sh >= 2 && sh <= 7 {
-		big = append(big, []int{20, 21, 22}[sh%3])
-	}
-	for _, c := range big {
-		c09Inner.EvalCase(s, c09InnerCase{C: c, Split: sh%2 == 1, N: []int{3, 64, 143}[(sh/2)%3], Mont: true, NbTasks: 16, Mode: "uniform", Seed: uint64(hx.Seed())})
+	if sh < nBig {
+		b := bigCombos[sh]
+		c09Inner.EvalCase(s, c09InnerCase{C: b.c, Split: b.split, N: []int{3, 64, 143}[(sh/2)%3], Mont: true, NbTasks: 16, Mode: "uniform", Seed: uint64(hx.Seed())})
 	}
 	// public path: thresholds that the rapid draw rarely reaches are forced (large n in thorough only)
 	if hx.Thorough() {
